@@ -6,6 +6,7 @@ CONSTANTS
   ASIS = FALSE
   ALPHA = "full"
   MAXLEN = 10
+  GUARD = TRUE
 INVARIANT Inv
 PROPERTY MCIsolation
 VIEW MCView
